@@ -1,6 +1,7 @@
 /* C20/C07 harness: backup-group arithmetic of the scratch libext2fs on a synthetic geometry.
  * stdin: S <sparse> <sparse2> <bg0> <bg1> <metabg> <first_meta_bg> <desc_per_block_log: desc size> <desc_blocks> <rsv_gdt> <first_data_block> <bpg> <blocksize> <ngroups>
  *        prints for every group g < ngroups:  g has_super super_blk old_desc new_desc used
+ *        then for every descriptor block i: D i <location with the primary superblock> <location with a backup superblock>
  *        L <n>   prints n results of ext2fs_list_backups(NULL, 1,5,7) */
 #include <stdio.h>
 #include <stdlib.h>
@@ -42,6 +43,11 @@ int main(void)
 				ext2fs_super_and_bgd_loc2(&fsb, g, &s, &o, &n, &u);
 				printf("%llu %d %llu %llu %llu %u\n", g, !!hs, (unsigned long long) s, (unsigned long long) o, (unsigned long long) n, u);
 			}
+			ext2fs_blocks_count_set(&sb, fdb + ng * bpg);
+			for (g = 0; g < dblocks; g++)
+				printf("D %llu %llu %llu\n", g,
+				       (unsigned long long) ext2fs_descriptor_block_loc2(&fsb, fdb, g),
+				       (unsigned long long) ext2fs_descriptor_block_loc2(&fsb, fdb + bpg, g));
 			printf("END\n");
 		} else if (!strcmp(cmd, "L")) {
 			int n, i; dgrp_t three = 1, five = 5, seven = 7;
